@@ -15,8 +15,24 @@
 //    duplicated constraints, loops closed twice on an assembled configuration); sets in
 //    the ambiguous-rank zone are skipped (ill-conditioned-W);
 //  * the on-manifold regime is reached by choosing constraint parameters so that the
-//    position error vanishes at the random configuration, then System::project(1e-11);
-//    a project() failure or a state still off the manifold is a skip, not a verdict.
+//    position error vanishes at the random configuration, then System::project(1e-11)
+//    (up to 4 calls); a project() failure or a state still off the manifold is a skip,
+//    not a verdict.
+//
+// Characterised by-design deviations from the C07 hierarchy (DESIGN §0/§5): the monitor
+// computes each deviation in closed form from reported kinematics (in the constraint's
+// Ancestor frame A), requires  (FD - reported) - predicted ~ 0  and reports a clearly
+// non-zero predicted term under its own key (known findings, never silently dropped):
+//   material-point-formulation:{Ball,Weld}:velocity      d/dt perr - pverr =  w_AB1 x perr      (off-manifold)
+//   material-point-formulation:{Ball,Weld}:acceleration  d/dt pverr - paerr = -w_AB1 x pverr    (off-manifold)
+//   material-point-formulation:{Ball,Weld}:Pq            (dperr/dq - Pq) N v =  w_AB1(v) x perr  (off-manifold)
+//   material-point-formulation:NoSlip1D:acceleration     n.[w_1 x (v_P - v_P1) - w_0 x (v_P - v_P0)] (also on-manifold)
+//   contact-frame-spin:SphereOnSphereContact:acceleration (rolling rows) sigma*(verr_y,-verr_x), sigma = spin
+//       about the centre line of the contact frame rebuilt by setRotationFromOneAxis, relative to the
+//       non-spinning frame the acceleration rows assume                                          (off-manifold)
+// Anything not explained by these terms, on any type and in either regime, is a violation.
+// Side observations (counted, not judged): Pq versus dqerr/dq and calcPq versus calcPqTranspose^T along
+// q-directions outside range(N) (quaternion scaling; spin of LineOrientation/FreeLine about their axis).
 #include "model.h"
 #include <array>
 using namespace SimTK;
@@ -993,6 +1009,8 @@ static void checkC08(Ctx& c, long idx, Rng& r) {
     matter.calcMInv(s, MInv); matter.calcG(s, G);
     Matrix Wm = G * MInv * ~G;
     for (int i = 0; i < m; ++i) for (int j = 0; j < i; ++j) { double a = 0.5 * (Wm(i, j) + Wm(j, i)); Wm(i, j) = Wm(j, i) = a; }
+    { Matrix Wlib; matter.calcProjectedMInv(s, Wlib);   // the library's G M^-1 G^T (operator route: G^T by forces, G by errors)
+      c.check("W:calcProjectedMInv=G*MInv*G^T", mdiff(Wlib, Wm), (E1 + 1e-13 * condM) * (mmaxabs(Wm) + 1e-3) * m, W("calcProjectedMInv != calcG*calcMInv*calcG^T")); }
     std::vector<double> ev; Matrix EV; jacobiEig(Wm, ev, EV);
     double lmax = 0; for (double x : ev) lmax = std::max(lmax, x);
     if (!(lmax > 0)) { c.skip("zero-constraint-matrix"); return; }
@@ -1004,10 +1022,14 @@ static void checkC08(Ctx& c, long idx, Rng& r) {
     Vector udot0; Vector_<SpatialVec> A0; matter.calcAccelerationIgnoringConstraints(s, fApp, FApp, udot0, A0);
     Vector aerr0; matter.calcConstraintAccelerationErrors(s, udot0, aerr0);
     const double scaleU = std::max(1.0, std::max(vmaxabs(aerr0), rowSumMax(G) * std::max(vmaxabs(udot), vmaxabs(udot0))));
+    const double tolU = (E1 + 1e-13 * condEff) * scaleU;
     bool redundant = rank < m;
     if (redundant) {
         double inc = 0; for (int k2 = 0; k2 < m; ++k2) if (!(ev[k2] > 1e-7 * lmax)) { double d = 0; for (int i = 0; i < m; ++i) d += EV(i, k2) * aerr0[i]; inc = std::max(inc, std::fabs(d)); }
-        if (inc > 1e-7 * scaleU) {
+        // The library cannot change the part of the right hand side that lies in the numerical null space
+        // of G M^-1 G^T; if that part is not well below the tolerance used for udoterr the set is
+        // (numerically) inconsistent: outside the statement.
+        if (inc > 0.1 * tolU) {
             if (c.args.verbose) fprintf(stderr, "inconsistent: inc=%g scaleU=%g rank=%d m=%d\n", inc, scaleU, rank, m);
             // (in the duplicated/loop classes this is an accidental deficiency of one of the members, e.g. a
             // rolling contact across a ball joint: the duplicate or implied constraint itself is always consistent)
@@ -1017,7 +1039,6 @@ static void checkC08(Ctx& c, long idx, Rng& r) {
         }
         c.obs(sc.redClass == 0 ? "rank-deficient-consistent(accidental)" : "rank-deficient-consistent(by-construction)");
     }
-    const double tolU = (E1 + 1e-13 * condEff) * scaleU;
 
     // ---------------------------------------------------------------- acceleration constraints satisfied
     c.setPhase("C08 oracles");
